@@ -328,6 +328,9 @@ func runTrace(fs *flag.FlagSet, prop string, seed uint64, n int, outDir, file st
 			if sp.traceFix != nil {
 				c = sp.traceFix(c)
 			}
+			if os.Getenv("VH_DEEP") != "" && (len(c.Edges) > 16 || (c.P4 == "ns" && len(c.Edges) > 7)) {
+				continue // the deep check evaluates the whole heuristic in the kernel: keep the instances small
+			}
 			c.Name = fmt.Sprintf("%s-t%d-%d", prop, seed, i)
 			if seen[c.Key()] {
 				continue
